@@ -77,8 +77,10 @@ def verify_function(index, contracts, c, props_filter=None):
     ctx = Ctx(index)
     ctx.unit = c.key.split(":")[1]
     res = UnitResult(c.key)
+    base_key, _, variant = c.key.partition("#")        # "mod:func#case": several contracts on one function
+    base_key, _, block = base_key.partition("@loop")     # "mod:func@loop4": the body of loop 4 as a unit
     try:
-        fi = index.func(c.key)
+        fi = index.func(base_key)
     except KeyError as e:
         res.error = str(e)
         return res
@@ -88,6 +90,16 @@ def verify_function(index, contracts, c, props_filter=None):
     try:
         declared = [n for n, _ in c.params]
         sig = [a.arg for a in fi.node.args.posonlyargs + fi.node.args.args + fi.node.args.kwonlyargs]
+        if fi.node.args.kwarg is not None:
+            sig.append(fi.node.args.kwarg.arg)
+        body = fi.node.body
+        if block:
+            from .loops import loop_nodes
+            loops = loop_nodes(fi.node)
+            if int(block) >= len(loops):
+                raise Unsupported(f"{base_key} has no loop #{block} any more")
+            body = loops[int(block)].body
+            sig = declared                    # a block's "parameters" are the variables live at its entry
         for n in declared:
             if n not in sig:
                 raise Unsupported(f"contract parameter '{n}' is not a parameter of {c.key} (signature {sig})")
@@ -98,6 +110,8 @@ def verify_function(index, contracts, c, props_filter=None):
             st.env[name] = make_param(ctx, st, name, kind)
         if c.free:
             st.env["$closure"] = {n: make_param(ctx, st, n, k) for n, k in c.free}
+        if getattr(c, "setup", None):
+            c.setup(ctx, st)
         if c.globals:
             st.ghost["globals"] = {(fi.module, n): make_param(ctx, st, "g_" + n, k) for n, k in c.globals}
         entry = st.fork()
@@ -116,7 +130,10 @@ def verify_function(index, contracts, c, props_filter=None):
         ex.contract_stack.append(c)
         ex.loop_counters.append([0, 0])
         ex.entry_views.append(A)
-        results = ex.exec_block(st, fi.node.body)
+        results = ex.exec_block(st, body)
+        if block:
+            from .state import Continue as _Cont
+            results = [(s_, NORMAL if isinstance(o_, _Cont) else o_) for s_, o_ in results]
         res.paths = len(results)
         n_ret = 0
         for s2, oc in results:
@@ -181,6 +198,7 @@ class _ResultView:
         self.raw_result = result
         self.new = new
         self.log = st.ghost.get("log", ())
+        self.trace = st.heap[st.ghost["trace_cell"].oid].val if "trace_cell" in st.ghost else None
 
 
 def _frame_obligations(ctx, entry, final, ref, name, c):
